@@ -35,14 +35,48 @@ def realDh : DhOps where
     | none => Crypto.X25519.x25519 sk pk
     | some ec => ecDh ec sk pk
 
+/-- order of the prime-order subgroup of Curve25519 -/
+def ell : Nat := 2 ^ 252 + 27742317777372353535851937790883648493
+
+/-- `SalsaBox::new` of crypto_box 0.9.1: the clamped scalar is REDUCED MOD ℓ (`Scalar::from_bytes_mod_order(clamp_integer(bytes))`)
+    before the Montgomery ladder.  For public keys in the prime-order subgroup (every honestly generated key) this is X25519
+    (= libsodium `crypto_box_beforenm`, `Crypto.NaclBox.boxKey`); for points with a torsion component or on the twist it is not. -/
+def crateBoxKey (sk pk : Bytes) : Bytes :=
+  Crypto.NaclBox.hsalsa20
+    (Crypto.X25519.natLE 32 (Crypto.X25519.ladder (Crypto.X25519.decodeScalar sk % ell) (Crypto.X25519.decodeU pk)))
+    (List.replicate 16 0)
+
 def realBox : BoxOps where
   pub := Crypto.X25519.pubOf
-  beforenm := Crypto.NaclBox.boxKey
+  beforenm := crateBoxKey
   sealBox := Crypto.NaclBox.secretboxSeal
   openBox := Crypto.NaclBox.secretboxOpen
   nonceHash := Crypto.NaclBox.blake2b 24
 
 def sha256 : Bytes → Bytes := Crypto.Sha2.sha256L
+
+/-- the same operations with a table of already computed shared secrets (speed only) -/
+def memoDh (tbl : List ((Curve × Bytes × Bytes) × Bytes)) : DhOps where
+  pub := realDh.pub
+  dh c sk pk := match tbl.lookup (c, sk, pk) with
+    | some z => z
+    | none => realDh.dh c sk pk
+
+def memoBox (tbl : List ((Bytes × Bytes) × Bytes)) : BoxOps :=
+  { realBox with beforenm := fun sk pk => match tbl.lookup (sk, pk) with
+      | some k => k
+      | none => realBox.beforenm sk pk }
+
+/-- table entry for the exchange `self → other`, if it can be computed -/
+def dhEntry (self other : Key) : List ((Curve × Bytes × Bytes) × Bytes) :=
+  match self.ty, self.secret with
+  | .dh c, some sk => if self.ty = other.ty then [((c, sk, other.pub), realDh.dh c sk other.pub)] else []
+  | _, _ => []
+
+def boxEntry (self other : Key) : List ((Bytes × Bytes) × Bytes) :=
+  match self.secret with
+  | some sk => [((sk, other.pub), realBox.beforenm sk other.pub)]
+  | none => []
 
 def curveOf : String → Option Curve
   | "x25519" => some .x25519 | "p256" => some .p256 | "p384" => some .p384 | "k256" => some .k256
@@ -78,17 +112,19 @@ def jres (r : Res Bytes) (f : Bytes → Json := jhex) : Json :=
 structure KdfArgs where
   mode : String
   target : Target
-  eph : Json
-  snd : Json
-  rcp : Json
+  eph : Key × Key
+  snd : Key × Key
+  rcp : Key × Key
   alg : Bytes
   apu : Bytes
   apv : Bytes
   tag : Bytes
 
+def keyAt (j : Json) (k : String) : Key × Key := keyOf ((getD? j k).getD .null)
+
 def KdfArgs.of (j : Json) : KdfArgs :=
   { mode := str! j "mode", target := targetOf (str! j "target"),
-    eph := (getD? j "eph").getD .null, snd := (getD? j "snd").getD .null, rcp := (getD? j "rcp").getD .null,
+    eph := keyAt j "eph", snd := keyAt j "snd", rcp := keyAt j "rcp",
     alg := value! j "alg", apu := value! j "apu", apv := value! j "apv", tag := value! j "tag" }
 
 def KdfArgs.perturb (a : KdfArgs) (p : Json) : KdfArgs :=
@@ -97,30 +133,24 @@ def KdfArgs.perturb (a : KdfArgs) (p : Json) : KdfArgs :=
   | "apu" => { a with apu := value! p "v" }
   | "apv" => { a with apv := value! p "v" }
   | "tag" => { a with tag := value! p "v" }
-  | "eph" => { a with eph := (getD? p "v").getD .null }
-  | "snd" => { a with snd := (getD? p "v").getD .null }
-  | "rcp" => { a with rcp := (getD? p "v").getD .null }
+  | "eph" => { a with eph := keyAt p "v" }
+  | "snd" => { a with snd := keyAt p "v" }
+  | "rcp" => { a with rcp := keyAt p "v" }
   | "target" => { a with target := targetOf (str! p "v") }
   | _ => a
 
-def KdfArgs.derive (a : KdfArgs) (receive : Bool) : Res Bytes :=
-  let (ephF, ephP) := keyOf a.eph
-  let (rcpF, rcpP) := keyOf a.rcp
-  let (eph, rcp) := if receive then (ephP, rcpF) else (ephF, rcpP)
+def KdfArgs.derive (D : DhOps) (a : KdfArgs) (receive : Bool) : Res Bytes :=
+  let (eph, rcp) := if receive then (a.eph.2, a.rcp.1) else (a.eph.1, a.rcp.2)
   if a.mode == "1pu" then
-    let (sndF, sndP) := keyOf a.snd
-    let snd := if receive then sndP else sndF
-    deriveKeyEcdh1pu realDh sha256 a.target eph snd rcp a.alg a.apu a.apv a.tag receive
+    let snd := if receive then a.snd.2 else a.snd.1
+    deriveKeyEcdh1pu D sha256 a.target eph snd rcp a.alg a.apu a.apv a.tag receive
   else
-    deriveKeyEcdhEs realDh sha256 a.target eph rcp a.alg a.apu a.apv receive
+    deriveKeyEcdhEs D sha256 a.target eph rcp a.alg a.apu a.apv receive
 
-def KdfArgs.dh (a : KdfArgs) (receive : Bool) : Res (List Bytes) := do
-  let (ephF, ephP) := keyOf a.eph
-  let (rcpF, rcpP) := keyOf a.rcp
-  let ze ← if receive then keyExchange realDh rcpF ephP else keyExchange realDh ephF rcpP
+def KdfArgs.dh (D : DhOps) (a : KdfArgs) (receive : Bool) : Res (List Bytes) := do
+  let ze ← if receive then keyExchange D a.rcp.1 a.eph.2 else keyExchange D a.eph.1 a.rcp.2
   if a.mode == "1pu" then
-    let (sndF, sndP) := keyOf a.snd
-    let zs ← if receive then keyExchange realDh rcpF sndP else keyExchange realDh sndF rcpP
+    let zs ← if receive then keyExchange D a.rcp.1 a.snd.2 else keyExchange D a.snd.1 a.rcp.2
     pure [ze, zs]
   else pure [ze]
 
@@ -132,12 +162,12 @@ def jz (r : Res (List Bytes)) : Json :=
 
 def runKdf (j : Json) : Json :=
   let a := KdfArgs.of j
-  let kx := toKeyExchange realDh a.target (keyOf a.eph).1 (keyOf a.rcp).2
+  let D := memoDh (dhEntry a.eph.1 a.rcp.2 ++ dhEntry a.snd.1 a.rcp.2 ++ dhEntry a.rcp.1 a.eph.2 ++ dhEntry a.rcp.1 a.snd.2)
+  let kx := toKeyExchange D a.target a.eph.1 a.rcp.2
   Json.mkObj [
-    ("send", jres (a.derive false)), ("recv", jres (a.derive true)),
-    ("z_send", jz (a.dh false)), ("z_recv", jz (a.dh true)), ("kx", jres kx),
-    ("perturbed", .arr ((arr! j "perturb").map fun p => jres ((a.perturb p).derive false)).toArray)]
-
+    ("send", jres (a.derive D false)), ("recv", jres (a.derive D true)),
+    ("z_send", jz (a.dh D false)), ("z_recv", jz (a.dh D true)), ("kx", jres kx),
+    ("perturbed", .arr ((arr! j "perturb").map fun p => jres ((a.perturb p).derive D false)).toArray)]
 def flipBit (b : Bytes) (bit : Nat) : Bytes :=
   if b.isEmpty then b
   else
@@ -165,52 +195,59 @@ def okBytes : Res Bytes → Bytes
 def runBox (j : Json) : Json :=
   let msg := value! j "msg"
   let nonce := value! j "nonce"
-  let sndJ := (getD? j "snd").getD .null
-  let rcpJ := (getD? j "rcp").getD .null
-  let boxed := envCryptoBox realBox (keyOf rcpJ).2 (keyOf sndJ).1 msg nonce
+  let snd := keyAt j "snd"
+  let rcp := keyAt j "rcp"
+  let B := memoBox (boxEntry snd.1 rcp.2 ++ boxEntry rcp.1 snd.2)
+  let boxed := envCryptoBox B rcp.2 snd.1 msg nonce
   let ct := okBytes boxed
-  let openWith (rcp snd : Json) (c n : Bytes) : Res Bytes := envCryptoBoxOpen realBox (keyOf rcp).1 (keyOf snd).2 c n
+  let openWith (rcp snd : Key × Key) (c n : Bytes) : Res Bytes := envCryptoBoxOpen B rcp.1 snd.2 c n
   let muts := (arr! j "muts").map fun m =>
     let (c, n) := applyMut m ct nonce
-    jres (openWith ((getD? m "rcp").getD rcpJ) ((getD? m "snd").getD sndJ) c n) jvalue
+    let r := match getD? m "rcp" with | some k => keyOf k | none => rcp
+    let s := match getD? m "snd" with | some k => keyOf k | none => snd
+    jres (openWith r s c n) jvalue
   let allbits : Json :=
     if bool! j "allbits" && isOk boxed then
-      .arr (((List.range (ct.length * 8)).filter fun bit => isOk (openWith rcpJ sndJ (flipBit ct bit) nonce)).map jnat).toArray
+      .arr (((List.range (ct.length * 8)).filter fun bit => isOk (openWith rcp snd (flipBit ct bit) nonce)).map jnat).toArray
     else .null
-  Json.mkObj [("box", jres boxed jvalue), ("open", jres (openWith rcpJ sndJ ct nonce) jvalue), ("muts", .arr muts.toArray),
+  Json.mkObj [("box", jres boxed jvalue), ("open", jres (openWith rcp snd ct nonce) jvalue), ("muts", .arr muts.toArray),
     ("allbits", allbits)]
 
 def runSeal (j : Json) : Json :=
   let msg := value! j "msg"
   let ephJ := (getD? j "eph").getD .null
-  let rcpJ := (getD? j "rcp").getD .null
-  let (rcpF, rcpP) := keyOf rcpJ
+  let rcp := keyAt j "rcp"
   let ephSk : Bytes := match getD? j "eph" with | some _ => value! ephJ "sk" | none => List.replicate 32 1
+  let ephPk := realBox.pub ephSk
+  let B0 := memoBox (boxEntry ⟨.dh .x25519, ephPk, some ephSk⟩ rcp.2)
   let sealed : Res Bytes :=
     match getD? j "ct" with
     | some _ => .ok (value! j "ct")
-    | none => envCryptoBoxSeal realBox ephSk rcpP msg
+    | none => envCryptoBoxSeal B0 ephSk rcp.2 msg
   let ct := okBytes sealed
-  let openWith (rcp : Json) (c : Bytes) : Res Bytes := envCryptoBoxSealOpen realBox (keyOf rcp).1 c
+  let B := memoBox (boxEntry ⟨.dh .x25519, ephPk, some ephSk⟩ rcp.2 ++ boxEntry rcp.1 ⟨.dh .x25519, ct.take 32, none⟩ ++
+    boxEntry rcp.1 ⟨.dh .x25519, ephPk, none⟩)
+  let openWith (rcp : Key × Key) (c : Bytes) : Res Bytes := envCryptoBoxSealOpen B rcp.1 c
   let random : Json :=
-    match envCryptoBoxSeal realBox ephSk rcpP msg with
+    match envCryptoBoxSeal B ephSk rcp.2 msg with
     | .ok s =>
-      match envCryptoBoxSealOpen realBox rcpF s with
+      match envCryptoBoxSealOpen B rcp.1 s with
       | .ok o =>
         let epk := s.take 32
-        match envCryptoBoxOpen realBox rcpF ⟨.dh .x25519, epk, none⟩ (s.drop 32) (Ecdh.sealNonce realBox epk rcpF.pub) with
+        match envCryptoBoxOpen B rcp.1 ⟨.dh .x25519, epk, none⟩ (s.drop 32) (Ecdh.sealNonce B epk rcp.1.pub) with
         | .ok p => Json.mkObj [("len", jnat s.length), ("open", jvalue o), ("parts", jvalue p)]
         | r => jres r
       | r => jres r
     | r => jres r
   let muts := (arr! j "muts").map fun m =>
     let (c, _) := applyMut m ct []
-    jres (openWith ((getD? m "rcp").getD rcpJ) c) jvalue
+    let r := match getD? m "rcp" with | some k => keyOf k | none => rcp
+    jres (openWith r c) jvalue
   let allbits : Json :=
     if bool! j "allbits" && isOk sealed then
-      .arr (((List.range (ct.length * 8)).filter fun bit => isOk (openWith rcpJ (flipBit ct bit))).map jnat).toArray
+      .arr (((List.range (ct.length * 8)).filter fun bit => isOk (openWith rcp (flipBit ct bit))).map jnat).toArray
     else .null
-  Json.mkObj [("sealed", jres sealed jvalue), ("open", jres (openWith rcpJ ct) jvalue), ("random", random),
+  Json.mkObj [("sealed", jres sealed jvalue), ("open", jres (openWith rcp ct) jvalue), ("random", random),
     ("muts", .arr muts.toArray), ("allbits", allbits)]
 
 def runCase (j : Json) : Json :=
